@@ -113,6 +113,8 @@ type CertSpec struct {
 	// SgxCritical marks the SGX extension critical; SKI overrides the subject key identifier (default: derived from Pub).
 	SgxCritical bool
 	SKI         []byte
+	// EKU, if set, restricts the certificate to these extended key usages.
+	EKU []x509.ExtKeyUsage
 }
 
 // Issue creates the certificate and returns it parsed, plus DER.
@@ -130,6 +132,7 @@ func Issue(s CertSpec) (*x509.Certificate, []byte) {
 	if s.SKI != nil {
 		tmpl.SubjectKeyId = s.SKI
 	}
+	tmpl.ExtKeyUsage = s.EKU
 	if s.IsCA {
 		tmpl.KeyUsage = x509.KeyUsageCertSign | x509.KeyUsageCRLSign
 	} else {
@@ -343,12 +346,17 @@ func (p *PKI) NewLeafKeyCrit(k *ecdsa.PrivateKey, cn string, serial *big.Int, sg
 
 // CRL builds a DER CRL signed by key under issuer cert.
 func CRL(issuer *x509.Certificate, key *ecdsa.PrivateKey, revoked []*big.Int, thisUpdate, nextUpdate time.Time) []byte {
-	var rc []pkix.RevokedCertificate
+	return CRLReason(issuer, key, revoked, 0, thisUpdate, nextUpdate)
+}
+
+// CRLReason: every entry carries the given reasonCode extension (0 = none). A listed serial is revoked whatever reason the entry states.
+func CRLReason(issuer *x509.Certificate, key *ecdsa.PrivateKey, revoked []*big.Int, reason int, thisUpdate, nextUpdate time.Time) []byte {
+	var rc []x509.RevocationListEntry
 	for _, s := range revoked {
-		rc = append(rc, pkix.RevokedCertificate{SerialNumber: s, RevocationTime: thisUpdate})
+		rc = append(rc, x509.RevocationListEntry{SerialNumber: s, RevocationTime: thisUpdate, ReasonCode: reason})
 	}
 	der, err := x509.CreateRevocationList(rand.Reader, &x509.RevocationList{
-		Number: big.NewInt(1), ThisUpdate: thisUpdate, NextUpdate: nextUpdate, RevokedCertificates: rc,
+		Number: big.NewInt(1), ThisUpdate: thisUpdate, NextUpdate: nextUpdate, RevokedCertificateEntries: rc,
 	}, issuer, detSigner{key})
 	if err != nil {
 		panic(fmt.Sprintf("CreateRevocationList: %v", err))
